@@ -30,7 +30,7 @@ ghost var gWroteID int        // packet id handed to the client's write channel 
 ghost var gWrotePending bool  // ... and whether it was recorded as pending at that moment
 ghost var gWroteQueuePos int  // doResend: queue position of the id it resent
 
-func (c *Client) writePacket(packet packets.ControlPacket)
+func (c *Client) writePacket(queued packets.ControlPacket)
   trusted
   requires c != nil
 
@@ -252,16 +252,47 @@ ghost var psSessQoss int
 ghost var psRouted bool
 ghost var psRecorded bool
 
+// C16: the persisted copy of a session (what a later connection is rebuilt from) is the subscription map as it is
+// when subscribe / unsubscribe return: store() hands the encoded session to the storage goroutine; stored* is the
+// subscription map it encoded last
+ghost field Session.storedDom mmap[string]bool
+ghost field Session.storedVal mmap[string]int
+func (s *Session) store()
+  trusted
+  requires s != nil && s.info != nil
+  modifies s.storedDom, s.storedVal
+  ensures s.storedDom == domOf(s.info.Topics) && s.storedVal == valsOf(s.info.Topics)
+
 func (s *Session) subscribe(topics []string, qoss []byte) (err error)
-  trusted
+  requires s != nil && s.info != nil && s.info.Topics != nil && len(qoss) >= len(topics)
+  modifies entries(s.info.Topics), s.storedDom, s.storedVal
+  ensures err == nil
+  ensures every-requested-filter-is-recorded: forall i int :: 0 <= i && i < len(topics) ==> (topics[i] in s.info.Topics)
+  ensures with-the-qos-requested-last-for-it: forall i int :: 0 <= i && i < len(topics) && (forall j int :: i < j && j < len(topics) ==> topics[j] != topics[i]) ==> s.info.Topics[topics[i]] == qoss[i]
+  ensures other-subscriptions-are-kept: forall t string :: (forall i int :: 0 <= i && i < len(topics) ==> topics[i] != t) ==> ((t in s.info.Topics) <==> old(t in s.info.Topics)) && s.info.Topics[t] == old(s.info.Topics[t])
+  ensures what-is-persisted-is-the-session-as-it-now-is: s.storedDom == domOf(s.info.Topics) && s.storedVal == valsOf(s.info.Topics)
+  invariant[1] forall i int :: 0 <= i && i < idx$1 ==> (topics[i] in s.info.Topics)
+  invariant[1] forall i int :: 0 <= i && i < idx$1 && (forall j int :: i < j && j < idx$1 ==> topics[j] != topics[i]) ==> s.info.Topics[topics[i]] == qoss[i]
+  invariant[1] forall t string :: (forall i int :: 0 <= i && i < idx$1 ==> topics[i] != t) ==> ((t in s.info.Topics) <==> old(t in s.info.Topics)) && s.info.Topics[t] == old(s.info.Topics[t])
+  invariant[1] s.storedDom == old(s.storedDom) && s.storedVal == old(s.storedVal)
+
 func (s *Session) unsubscribe(topics []string) (err error)
-  trusted
+  requires s != nil && s.info != nil
+  modifies entries(s.info.Topics), s.storedDom, s.storedVal
+  ensures err == nil
+  ensures every-named-filter-is-dropped: forall i int :: 0 <= i && i < len(topics) ==> !(topics[i] in s.info.Topics)
+  ensures other-subscriptions-are-kept: forall t string :: (forall i int :: 0 <= i && i < len(topics) ==> topics[i] != t) ==> ((t in s.info.Topics) <==> old(t in s.info.Topics)) && s.info.Topics[t] == old(s.info.Topics[t])
+  ensures what-is-persisted-is-the-session-as-it-now-is: s.storedDom == domOf(s.info.Topics) && s.storedVal == valsOf(s.info.Topics)
+  invariant[1] forall i int :: 0 <= i && i < idx$1 ==> !(topics[i] in s.info.Topics)
+  invariant[1] forall t string :: (forall i int :: 0 <= i && i < idx$1 ==> topics[i] != t) ==> ((t in s.info.Topics) <==> old(t in s.info.Topics)) && s.info.Topics[t] == old(s.info.Topics[t])
+  invariant[1] s.storedDom == old(s.storedDom) && s.storedVal == old(s.storedVal)
 
 func processSubscribe(c *Client, p packets.ControlPacket)
   flag allocates
   flag frame=unchecked
-  requires c != nil && c.broker != nil && c.broker.topicMgr != nil && c.session != nil
+  requires c != nil && c.broker != nil && c.broker.topicMgr != nil && c.session != nil && c.session.info != nil && c.session.info.Topics != nil
   requires typeIs(p, "*packets.SubscribePacket") && ifaceVal(p) != 0
+  requires a-decoded-SUBSCRIBE-has-one-qos-per-filter: len(ptr(ifaceVal(p), "*packets.SubscribePacket").Qoss) == len(ptr(ifaceVal(p), "*packets.SubscribePacket").Topics)
   ensures every-requested-filter-is-routed-with-the-requested-qos-under-this-client: psRouted && psTopics == ref(ptr(ifaceVal(p), "*packets.SubscribePacket").Topics) && psQoss == ref(ptr(ifaceVal(p), "*packets.SubscribePacket").Qoss) && psCid == c.info.cid
   ensures the-session-records-the-same-filters-once-they-are-routed: psRecorded ==> psSessTopics == psTopics && psSessQoss == psQoss
   ghost at entry: psRouted := false
@@ -278,7 +309,7 @@ func processSubscribe(c *Client, p packets.ControlPacket)
 func processUnsubscribe(c *Client, p packets.ControlPacket)
   flag allocates
   flag frame=unchecked
-  requires c != nil && c.broker != nil && c.broker.topicMgr != nil && c.session != nil
+  requires c != nil && c.broker != nil && c.broker.topicMgr != nil && c.session != nil && c.session.info != nil
   requires typeIs(p, "*packets.UnsubscribePacket") && ifaceVal(p) != 0
   ensures every-named-filter-is-unrouted-for-this-client: psRouted && psTopics == ref(ptr(ifaceVal(p), "*packets.UnsubscribePacket").Topics) && psCid == c.info.cid
   ensures and-dropped-from-the-session: psRecorded && psSessTopics == psTopics
@@ -289,4 +320,22 @@ func processUnsubscribe(c *Client, p packets.ControlPacket)
   ghost at call[1] TopicManager.unsubscribe: psCid := clientID
   ghost at call[1] Session.unsubscribe: psRecorded := true
   ghost at call[1] Session.unsubscribe: psSessTopics := ref(topics)
+
+// ---- C15: a QoS1 PUBLISH from a client is acknowledged with a PUBACK carrying the same packet id ----
+// The packet handed to writePacket is serialised later, by the connection's writeLoop: the ack of one publish has
+// to be a packet of its own (a shared packet object would carry the id of whichever publish wrote it last).
+ghost var paAcked bool
+ghost var paID int
+ghost var paObj int
+func processPublish(c *Client, packet packets.ControlPacket)
+  flag allocates
+  flag frame=unchecked
+  requires c != nil && typeIs(packet, "*packets.PublishPacket") && ifaceVal(packet) != 0
+  ensures a-qos1-publish-is-acknowledged-with-its-own-packet-id: ptr(ifaceVal(packet), "*packets.PublishPacket").Qos == 1 ==> paAcked && paID == ptr(ifaceVal(packet), "*packets.PublishPacket").MessageID
+  ensures the-ack-is-a-packet-of-its-own: ptr(ifaceVal(packet), "*packets.PublishPacket").Qos == 1 ==> paObj != 0 && fresh(ptr(paObj, "*packets.PubackPacket"))
+  ensures other-qos-levels-are-not-acknowledged: ptr(ifaceVal(packet), "*packets.PublishPacket").Qos != 1 ==> !paAcked
+  ghost at entry: paAcked := false
+  ghost at call[1] writePacket: paAcked := typeIs(queued, "*packets.PubackPacket")
+  ghost at call[1] writePacket: paObj := ifaceVal(queued)
+  ghost at call[1] writePacket: paID := ptr(ifaceVal(queued), "*packets.PubackPacket").MessageID
 @*/
